@@ -14,7 +14,7 @@ class C09(BaseCheck):
   ID = 'C09'
   RULE = ('case = one client (Thrift or ThriftMux, one endpoint; resurrector parameters default 5/60/1.2 or '
           '(2,20,1.5) (1.5,10,1.2) (5,5,1.2)) with one call every delta in {0.25,0.5,1} s; 1-3 outages of '
-          '10-250 virtual seconds (refusing or black-holed endpoint, existing connections reset, first '
+          '10-250 virtual seconds (refusing or black-holed endpoint, existing connections reset or - 30% - left up with the host gone silent: requests and, on ThriftMux, keep-alive pings are never answered; such an outage lasts >= 70 s there and the first connection or fail-fast error is due within 40 + 5 s + one step; first '
           'outage optionally already at first connect), start and end placed at seeded phases relative to '
           'traffic and to the retry timer; then the client is closed and 3 max_wait of silence follow. '
           'Oracles: (a) once the client has answered with its fail-fast error, every call until the next '
@@ -36,7 +36,7 @@ class C09(BaseCheck):
   REQUIRED_CLASSES = ('thrift', 'mux', 'multi-endpoint', 'outage:refuse', 'outage:blackhole', 'down-at-first-connect', 'recovered',
                       'fail-fast-seen', 'backoff-capped', 'closed-while-down', 'closed-on-error', 'staggered-outages',
                       'recover:first-down-first', 'recover:last-down-first', 'rotation-during-outage', 'waiters-at-outage', 'stock-resurrector',
-                      'direct:close-same-instant-attempt-completes', 'outage:host-goes-silent')
+                      'direct:close-same-instant-attempt-completes', 'outage:host-goes-silent', 'outage:host-goes-silent-mux', 'outages:thrift', 'outages:mux')
   ASSUMPTIONS = ('initial_wait_interval > 1 (the implementation\'s x**exponent back-off only grows above 1)',
                  'black-holed connects give up after 3 s in these scenarios (SYN timeout shortened so that '
                  'attempt durations stay small against the retry intervals)')
@@ -340,8 +340,8 @@ class C09(BaseCheck):
     from vlib import servers
     from vlib.stackworld import StackWorld
     out = CaseResult()
-    kind = ('thrift', 'mux')[idx % 2]
-    classes = {kind}
+    kind = ('thrift', 'mux')[(idx // 2) % 2]      # (this scenario only gets even indices)
+    classes = {kind, 'outages:' + kind}
     self._direct(env, rng, out, classes)
     init, mx, ex = rng.choice([(5, 60, 1.2), (5, 60, 1.2), (2, 20, 1.5), (1.5, 10, 1.2), (5, 5, 1.2)])
     delta = rng.choice([0.25, 0.5, 1.0])
@@ -358,6 +358,9 @@ class C09(BaseCheck):
 
       def __call__(self, server, conn, req):
         return {'drop': True} if self.silent else {'delay': 0.002}
+
+      def ping(self, server, conn, tag):
+        return {'drop': True} if self.silent else {'delay': 0.0005}
     pol = Pol()
     stock = (init, mx, ex) == (5, 60, 1.2) and rng.random() < 0.6
     if stock:
@@ -396,19 +399,23 @@ class C09(BaseCheck):
           if rng.random() < 0.5:
             env.advance(0.0005)
         srv.sim.mode = mode
-        if kind == 'thrift' and rng.random() < 0.3:
+        if rng.random() < 0.3:
           # the host goes dark rather than resetting its connections: requests in flight are never
           # answered, the client finds out through timeouts and through connects that fail after a while
-          classes.add('outage:host-goes-silent')
+          # (serial transport) or through a keep-alive ping that goes unanswered (multiplexed transport)
+          classes.add('outage:host-goes-silent' if kind == 'thrift' else 'outage:host-goes-silent-mux')
           pol.silent = True
           srv.sim.connect_latency = rng.choice([0.05, 0.3])
+
         else:
           for c in srv.sim.conns:
             if not c.client_closed:
               c.close_by_server(rng.choice(['rst', 'fin']))
-        outages.append({'start': env.now, 'end': None, 'mode': mode})
+        outages.append({'start': env.now, 'end': None, 'mode': mode, 'silent': pol.silent})
         classes.add('outage:' + mode)
       dur = rng.choice([10, 30, 80, 250]) * (0.5 + rng.random())
+      if pol.silent and kind == 'mux':
+        dur = max(dur, 70.0)       # longer than a ping period (30-40 s) plus its 5 s grace
       tick(int(dur / delta))
       env.advance(rng.random() * delta)
       srv.sim.mode = 'up'
@@ -479,6 +486,15 @@ class C09(BaseCheck):
           if isinstance(p.inner_exception, FailedFastError):
             classes.add('fail-fast-seen')
       next_ok = min([a[2] for a in attempts if a[1] == 'ok' and a[0] >= o['start']] or [float('inf')])
+      if o.get('silent') and kind == 'mux' and end - o['start'] > 50.0 and not o.get('final'):
+        # bounded detection: a keep-alive ping goes out every 30-40 s and is given 5 s; under steady
+        # traffic the client must have found the silent connection out within 40 + 5 s (+ one step)
+        out.obligations += 1
+        if ff_start is None or ff_start > o['start'] + 45.0 + delta + 0.1:
+          out.violate('fail-fast:silent-outage-undetected', 'the host went silent %.1fs ago (connection up, nothing answered, '
+                      'steady traffic with 1 s timeouts); pings are due every 30-40 s with 5 s grace, but %s' % (
+                        end - o['start'], 'no call has failed with a connection or fail-fast error yet' if ff_start is None
+                        else 'the first such failure came after %.1fs' % (ff_start - o['start'])), facts, {'outage': o})
       if ff_start is not None:
         for r in w.calls:
           if r['t'] <= ff_start or r['t'] >= min(next_ok, end, t_close) - EPS or not r['completions']:
